@@ -4,9 +4,12 @@
    that this model no longer describes the code - information for maintaining the specification,
    never a verdict and never an exit status).
 
-   Scope: path data whose numbers are all integers (any spelling); there the two candidate
-   spellings of a number - the shortened input lexeme and the shortened float of the other-case
-   twin - are both the canonical integer spelling NumInt, float arithmetic is exact, and the choice
+   Scope: path data whose numbers have at most 4 decimals (any spelling), interpreted exactly at the
+   scale K of the most precise one; there the two candidate spellings of a number - the shortened
+   input lexeme and the shortened float of the other-case twin - are both the canonical spelling
+   NumDec of minify.Number (integer with 0 / 00 / exponent, plain decimal, or digits with a negative
+   exponent; the input-form dependent "normalised" case of Number needs values below 10^-4 and is
+   out of scope), float noise is rounded away by the 15-digit precision of the twin, and the choice
    between the absolute and the relative twin is a comparison of byte counts.
 
    Transcribed from svg/pathdata.go: ShortenPathData (a repeated command letter continues the
@@ -20,26 +23,42 @@ RECURSIVE DigitsAcc(_, _)
 DigitsAcc(n, acc) == IF n < 10 THEN <<48 + n>> \o acc ELSE DigitsAcc(n \div 10, <<48 + (n % 10)>> \o acc)
 DigitBytes(n) == DigitsAcc(n, <<>>)
 
-(* minify.Number on an integer, then copyNumber's 00 -> e2: m, m0, me2, me3 ... *)
-NumInt(v) ==
+(* minify.Number (precision 0 / 15) on the value v / 10^K, then copyNumber's 00 -> e2.
+   D = significant digits, n = their number, normExp: value = 0.D * 10^normExp.              *)
+Pow10(k) == CASE k = 0 -> 1 [] k = 1 -> 10 [] k = 2 -> 100 [] k = 3 -> 1000 [] OTHER -> 10000
+LenNat(i) == Len(DigitBytes(IF i < 0 THEN 0 - i ELSE i))
+NumDec(v, K) ==
   IF v = 0 THEN <<48>>
   ELSE LET a == IF v < 0 THEN 0 - v ELSE v
            ds == DigitBytes(a)
-           z == TrailZ([i \in 1..Len(ds) |-> ds[i] - 48])
-           body == IF z >= 2 THEN SubSeq(ds, 1, Len(ds) - z) \o <<101>> \o DigitBytes(z) ELSE ds
+           L == Len(ds)
+           tz == TrailZ([i \in 1..L |-> ds[i] - 48])
+           D == SubSeq(ds, 1, L - tz)
+           n == L - tz
+           normExp == L - K
+           intExp == normExp - n
+           body ==
+             IF n <= normExp                                            \* case 1: integer
+             THEN (IF intExp >= 2 THEN D \o <<101>> \o DigitBytes(intExp)   \* 3+: Number, 2: copyNumber
+                   ELSE IF intExp = 1 THEN D \o <<48>> ELSE D)
+             ELSE IF 0 - LenNat(intExp) - 1 <= normExp                   \* case 3: plain decimal
+             THEN (IF normExp <= 0 THEN <<46>> \o [i \in 1..(0 - normExp) |-> 48] \o D
+                   ELSE SubSeq(D, 1, normExp) \o <<46>> \o SubSeq(D, normExp + 1, n))
+             ELSE D \o <<101, 45>> \o DigitBytes(0 - intExp)             \* case 4: negative exponent
        IN (IF v < 0 THEN <<45>> ELSE <<>>) \o body
-HasE(coord) == \E i \in 1..Len(coord) : coord[i] = 101
+NotInt(coord) == \E i \in 1..Len(coord) : coord[i] \in {101, 46}
 
 \* printer state (PathDataState) and output buffer
 P0 == [cmd |-> 0, pd |-> FALSE, pi |-> FALSE, pf |-> FALSE]
-PutNumber(acc, v) ==
-  LET coord == NumInt(v)
+PutNumber(acc, v, K) ==
+  LET coord == NumDec(v, K)
       ps == acc.ps
       digit == coord[1] >= 48 /\ coord[1] <= 57
+      blank == ps.pd /\ (digit \/ (coord[1] = 46 /\ ps.pi))
   IN IF ps.pd /\ digit /\ coord[1] = 48 /\ ~ps.pi
      THEN [acc EXCEPT !.buf = @ \o <<46, 48>>]                       \* ".0": state unchanged
-     ELSE [buf |-> acc.buf \o (IF ps.pd /\ digit THEN <<32>> ELSE <<>>) \o coord,
-           ps |-> [ps EXCEPT !.pd = TRUE, !.pi = ~HasE(coord), !.pf = FALSE]]
+     ELSE [buf |-> acc.buf \o (IF blank THEN <<32>> ELSE <<>>) \o coord,
+           ps |-> [ps EXCEPT !.pd = TRUE, !.pi = ~NotInt(coord), !.pf = FALSE]]
 PutFlag(acc, f) ==
   [buf |-> acc.buf \o (IF acc.ps.pf THEN <<>> ELSE <<32>>) \o <<48 + f>>,
    ps |-> [acc.ps EXCEPT !.pf = TRUE, !.pd = FALSE, !.pi = FALSE]]
@@ -48,9 +67,9 @@ PutHeader(ps, cmd) ==
   THEN [buf |-> <<cmd>>, ps |-> [ps EXCEPT !.cmd = cmd, !.pd = FALSE, !.pi = FALSE]]
   ELSE [buf |-> <<>>, ps |-> ps]
 \* one candidate: command letter (if not elided) and its numbers
-Render(ps, o) ==
+Render(ps, o, K) ==
   LET arc == IsArc(o.c) IN
-  FoldLeft(LAMBDA acc, j : IF arc /\ j \in {4, 5} THEN PutFlag(acc, o.a[j]) ELSE PutNumber(acc, o.a[j]),
+  FoldLeft(LAMBDA acc, j : IF arc /\ j \in {4, 5} THEN PutFlag(acc, o.a[j]) ELSE PutNumber(acc, o.a[j], K),
            PutHeader(ps, o.c), [j \in 1..Len(o.a) |-> j])
 
 (* ShortenPathData: consecutive commands with the same letter are one command (except M / m) *)
@@ -61,10 +80,9 @@ Merge(cmds) ==
              ELSE Append(acc, cm),
            <<>>, cmds)
 
-IntArg(c, j, lx) == ArgVal(c, j, lx, 0)
 
 \* one command: all its coordinate sets
-PredictCmd(st, cm, nxt) ==
+PredictCmd(st, cm, nxt, K) ==
   LET ar == Arity(cm.c) IN
   IF ar = 0
   THEN [st EXCEPT !.d = CopyZ(st.d).p, !.buf = @ \o <<122>>,
@@ -73,29 +91,35 @@ PredictCmd(st, cm, nxt) ==
            st0 == IF cm.c \in {77, 109} THEN [st EXCEPT !.ps.cmd = 0] ELSE st    \* "reprint M always"
        IN FoldLeft(LAMBDA s, i :
              LET c == GroupLetter(cm.c, i)
-                 v == [j \in 1..ar |-> IntArg(cm.c, j, cm.a[(i - 1) * ar + j])]
+                 v == [j \in 1..ar |-> ArgVal(cm.c, j, cm.a[(i - 1) * ar + j], K)]
                  multi == groups > 1
                  lastg == i = groups
                  r0 == Copy(s.d, c, v, multi, lastg, nxt, FALSE)
                  r1 == Copy(s.d, c, v, multi, lastg, nxt, TRUE)
              IN IF r0.out.c = 0 THEN [s EXCEPT !.d = r0.p]                         \* dropped
-                ELSE LET cur == Render(s.ps, r0.out)  alt == Render(s.ps, r1.out)
+                ELSE LET cur == Render(s.ps, r0.out, K)  alt == Render(s.ps, r1.out, K)
                          pick == IF Len(alt.buf) < Len(cur.buf) THEN alt ELSE cur
                      IN [d |-> r0.p, ps |-> pick.ps, buf |-> s.buf \o pick.buf],
            st0, [i \in 1..groups |-> i])
 
 Predict(cmds0) ==
   LET cmds == Merge(cmds0)
+      K == Scale(cmds0)
       n == Len(cmds)
-  IN FoldLeft(LAMBDA st, i : PredictCmd(st, cmds[i], IF i < n THEN Class(IF IsRel(cmds[i + 1].c) THEN cmds[i + 1].c - 32 ELSE cmds[i + 1].c) ELSE "O"),
+  IN FoldLeft(LAMBDA st, i : PredictCmd(st, cmds[i], IF i < n THEN Class(IF IsRel(cmds[i + 1].c) THEN cmds[i + 1].c - 32 ELSE cmds[i + 1].c) ELSE "O", K),
               [d |-> D0, ps |-> P0, buf |-> <<>>], [i \in 1..n |-> i]).buf
 
-\* the comparison applies to: valid, non-empty path data, integers only, small enough for 32-bit arithmetic
+(* The comparison applies to valid, non-empty path data with at most 4 decimals that fits 32-bit arithmetic
+   and whose numbers are exact in binary floating point (integers, multiples of 1/2) or +-0.0005 (the compact
+   family of the generator): the shortener computes with float64, and with other decimals its equality tests
+   and cancellations see float noise (0.1 + 0.2 # 0.3) that this exact model does not have. *)
+FloatSafe(w, K) == K = 0 \/ (2 * w) % Pow10(K) = 0 \/ (K = 4 /\ (w = 5 \/ w = -5))
 Predictable(in) ==
   LET p == PathParse(in) IN
-  /\ p.ok /\ p.cmds # <<>> /\ Scale(p.cmds) = 0
-  /\ ~Interp(p.cmds, 0).st.bad
+  /\ p.ok /\ p.cmds # <<>> /\ Scale(p.cmds) <= 4
+  /\ ~Interp(p.cmds, Scale(p.cmds)).st.bad
   /\ \A i \in 1..Len(p.cmds) : \A j \in 1..Len(p.cmds[i].a) :
-        LET w == Fix(p.cmds[i].a[j], 0) IN w > -100000000 /\ w < 100000000
+        LET w == Fix(p.cmds[i].a[j], Scale(p.cmds)) IN
+        w > -100000000 /\ w < 100000000 /\ FloatSafe(w, Scale(p.cmds))
 NoDrift(in, out) == ~Predictable(in) \/ Predict(PathParse(in).cmds) = out
 =============================================================================
